@@ -56,6 +56,9 @@ type alPkg struct {
 	cmdSize    func(c alCmd) int
 	// unmarshalTwice decodes b1 and then b2 into the SAME Commands variable
 	unmarshalTwice func(up bool, b1, b2 []byte) ([]alCmd, error)
+	// unmarshalKeep decodes b1 into a Commands variable, keeps the value (as a caller holding the result would), decodes b2
+	// into the same variable and then reads the KEPT value
+	unmarshalKeep func(up bool, b1, b2 []byte) ([]alCmd, error)
 }
 
 func nilIface(p alPayload) bool { return p == nil || reflect.ValueOf(p).IsNil() }
@@ -86,6 +89,17 @@ var alPkgs = map[string]*alPkg{
 			err := cs.UnmarshalBinary(up, data)
 			var out []alCmd
 			for _, c := range cs {
+				out = append(out, alCmd{int(c.CID), c.Payload})
+			}
+			return out, err
+		},
+		unmarshalKeep: func(up bool, b1, b2 []byte) ([]alCmd, error) {
+			var cs clocksync.Commands
+			err := cs.UnmarshalBinary(up, b1)
+			kept := cs
+			cs.UnmarshalBinary(up, b2)
+			var out []alCmd
+			for _, c := range kept {
 				out = append(out, alCmd{int(c.CID), c.Payload})
 			}
 			return out, err
@@ -137,6 +151,17 @@ var alPkgs = map[string]*alPkg{
 			}
 			return out, err
 		},
+		unmarshalKeep: func(up bool, b1, b2 []byte) ([]alCmd, error) {
+			var cs multicastsetup.Commands
+			err := cs.UnmarshalBinary(up, b1)
+			kept := cs
+			cs.UnmarshalBinary(up, b2)
+			var out []alCmd
+			for _, c := range kept {
+				out = append(out, alCmd{int(c.CID), c.Payload})
+			}
+			return out, err
+		},
 		unmarshalTwice: func(up bool, b1, b2 []byte) ([]alCmd, error) {
 			var cs multicastsetup.Commands
 			cs.UnmarshalBinary(up, b1)
@@ -184,6 +209,17 @@ var alPkgs = map[string]*alPkg{
 			}
 			return out, err
 		},
+		unmarshalKeep: func(up bool, b1, b2 []byte) ([]alCmd, error) {
+			var cs fragmentation.Commands
+			err := cs.UnmarshalBinary(up, b1)
+			kept := cs
+			cs.UnmarshalBinary(up, b2)
+			var out []alCmd
+			for _, c := range kept {
+				out = append(out, alCmd{int(c.CID), c.Payload})
+			}
+			return out, err
+		},
 		unmarshalTwice: func(up bool, b1, b2 []byte) ([]alCmd, error) {
 			var cs fragmentation.Commands
 			cs.UnmarshalBinary(up, b1)
@@ -227,6 +263,17 @@ var alPkgs = map[string]*alPkg{
 			err := cs.UnmarshalBinary(up, data)
 			var out []alCmd
 			for _, c := range cs {
+				out = append(out, alCmd{int(c.CID), c.Payload})
+			}
+			return out, err
+		},
+		unmarshalKeep: func(up bool, b1, b2 []byte) ([]alCmd, error) {
+			var cs firmwaremanagement.Commands
+			err := cs.UnmarshalBinary(up, b1)
+			kept := cs
+			cs.UnmarshalBinary(up, b2)
+			var out []alCmd
+			for _, c := range kept {
 				out = append(out, alCmd{int(c.CID), c.Payload})
 			}
 			return out, err
